@@ -70,7 +70,26 @@ pub fn run(ctx: &mut Ctx) {
             }
             _ => {}
         }
-        let res = match problem::run(&p, &st) {
+        // a quarter of the reports come from a solver object that has been used before: a first solve cut off after
+        // one or two iterations leaves a status, objective values and residual figures of its own behind, and the
+        // report of the second solve must be about the second solve only
+        let reused = rng.bool(0.25);
+        let attempt = if reused {
+            let mut st1 = st.clone();
+            st1.max_iter = *rng.choose(&[1, 2]);
+            problem::new_solver(&p, &st1).and_then(|mut solver| {
+                problem::solve_observed(&mut solver)?;
+                solver.settings.max_iter = st.max_iter;
+                let ev = problem::solve_observed(&mut solver)?;
+                Ok(problem::extract(&solver, ev))
+            })
+        } else {
+            problem::run(&p, &st)
+        };
+        if reused {
+            ctx.bump("reports_from_a_reused_solver_object");
+        }
+        let res = match attempt {
             Ok(r) => r,
             Err(msg) => {
                 ctx.inconclusive(&format!("panic: {msg}"), wl, case);
